@@ -27,7 +27,10 @@ Check(e) ==
       known == answered \cup SeqSet(e.listed)
       queried == SeqSet(e.queried)
       AddrStr(i) == U[i].addr
-      closure == \A i \in Top(known) : U[i].addr \in queried
+      \* an entry counts as queried when its address was queried, or when another entry with the SAME id was (the accumulator keeps
+      \* one entry per id: a second address claiming an id already seen is never a candidate)
+      QueriedE(i) == U[i].addr \in queried \/ \E j \in known : U[j].id = U[i].id /\ U[j].addr \in queried
+      closure == \A i \in Top(known) : QueriedE(i)
       \* a request to address a at time t2 is a re-query if a answered before t2 or an earlier request to a expired before t2
       requery == \E r \in 1..Len(e.requests) :
                    LET a == e.requests[r][1] t2 == e.requests[r][2] IN
@@ -41,19 +44,20 @@ Check(e) ==
         IF e.kind \in {"find_node", "closest"}
         THEN /\ sorted /\ Len(rep) <= (IF e.kind = "find_node" THEN K ELSE Len(rep))
              /\ SeqSet(rep) \subseteq pool
-             /\ \A i \in Top(pool) : i \in SeqSet(rep) \/ Explained(i, pool)
+             /\ \A i \in Top(pool) : i \in SeqSet(rep) \/ Explained(i, pool) \/ \E j \in SeqSet(rep) : U[j].id = U[i].id
         ELSE IF e.kind = "put" /\ Len(e.requests) > 0    \* a put served from the lookup cache sends no lookup request: nothing to judge here
         THEN /\ SeqSet(e.stores) \subseteq {U[i].addr : i \in SeqSet(e.bearers)}
              /\ \A i \in Top(SeqSet(e.bearers)) : U[i].addr \in SeqSet(e.stores) \/ Explained(i, SeqSet(e.bearers))
+                                                  \/ \E j \in SeqSet(e.bearers) : U[j].id = U[i].id /\ U[j].addr \in SeqSet(e.stores)
         ELSE TRUE
       unexplained == {i \in Top(pool) : e.kind \in {"find_node", "closest"} /\ i \notin SeqSet(rep) /\ ~Explained(i, pool)}
   IN [failed |-> (IF e.done THEN {} ELSE {"C07_LookupCompletes"})
                  \cup (IF closure THEN {} ELSE {"C07_Closure"})
                  \cup (IF requery THEN {"C07_NoRequery"} ELSE {})
                  \cup (IF reportedOk THEN {} ELSE {"C07_Reported"}),
-      known |-> Cardinality(known), top_unqueried |-> {U[i].addr : i \in {j \in Top(known) : U[j].addr \notin queried}},
+      known |-> Cardinality(known), top_unqueried |-> {U[i].addr : i \in {j \in Top(known) : ~QueriedE(j)}},
       \* every unqueried entry of the closest K shares its IP with another known entry (the accumulator's per-IP rule kept that one)
-      shared_ip |-> \A i \in {j \in Top(known) : U[j].addr \notin queried} : Explained(i, known \cup SeqSet(e.seeds))]
+      shared_ip |-> \A i \in {j \in Top(known) : ~QueriedE(j)} : Explained(i, known \cup SeqSet(e.seeds))]
 
 Init == l = 1
 Next == /\ l <= Len(Rec)
